@@ -69,6 +69,8 @@ func (npi *Informer) GetMetric(ctx context.Context) *api.Metric {
 		}
 	}
 
+	verifGate("inf.checked")
+
 	pinMap := make(map[string]api.IPFSPinStatus)
 
 	// make use of the RPC API to obtain information
